@@ -122,7 +122,51 @@ def check_arbitrary_int(rep, g, equality):
     G, a, b = fi
     var = ('field', ('downcast', G, 0, 'Ok'), 0)
     if a[0] != 'const' or a[2] is None or b[0] != 'const' or b[2] is None:
-        rep.ob('R-ARB-INT', None, g, 'generator range endpoints do not fold to constants', {'lo': show(a), 'hi': show(b)})
+        # endpoints that do not fold (a bound written as a call): compare symbolically with the bound terms the
+        # validator checks use: lo = bound | bound + 1, hi = bound | bound - 1
+        if d['sanitizers'] or d['custom']:
+            rep.ob('R-ARB-INT', None, g, 'generator range endpoints do not fold to constants', {'lo': show(a), 'hi': show(b)})
+            return
+        ctor = g.ctor()
+        oks = [o for o in g.paths(ctor) if o.kind == 'return' and is_ok(o.ret)] if ctor else []
+        if len(oks) != 1:
+            rep.ob('R-ARB-INT', None, g, 'generator range endpoints do not fold and the constructor has no unique accepting path', {})
+            return
+        F = oks[0].ret[4][0][4][0]
+        chks = [norm_check(ex, c, v, F) for c, v in oks[0].conds]
+
+        def step(t):
+            """(base term, offset) of `x`, `x + 1`, `x - 1` as MIR spells them (checked arithmetic)"""
+            if t[0] == 'field' and t[2] == 0 and t[1][0] == 'bin' and t[1][1] in ('AddWithOverflow', 'SubWithOverflow') and t[1][3][0] == 'const':
+                k = const_value(t[1][3])
+                return t[1][2], (k if t[1][1].startswith('Add') else -k)
+            if t[0] == 'bin' and t[1] in ('Add', 'Sub') and t[3][0] == 'const':
+                k = const_value(t[3])
+                return t[2], (k if t[1] == 'Add' else -k)
+            return t, 0
+        t_ = d['inner']
+        want_lo, want_hi = (sym.mk_const(t_, int_min(t_)), 0), (sym.mk_const(t_, int_max(t_)), 0)
+        for v, chk in zip(d['validators'], chks):
+            if chk.get('kind') != 'cmp':
+                continue
+            if v['kind'] == 'greater':
+                want_lo = (chk['bound'], 1)
+            elif v['kind'] == 'greater_or_equal':
+                want_lo = (chk['bound'], 0)
+            elif v['kind'] == 'less':
+                want_hi = (chk['bound'], -1)
+            elif v['kind'] == 'less_or_equal':
+                want_hi = (chk['bound'], 0)
+        def canon(x):
+            t0, k = x
+            if t0[0] == 'const' and t0[2] is not None:
+                return (sym.mk_const(t0[1], const_value(t0) + k), 0)   # fold the offset; the name of a constant is irrelevant
+            return (t0, k)
+        got_lo, got_hi = canon(step(a)), canon(step(b))
+        want_lo, want_hi = canon(want_lo), canon(want_hi)
+        okb = got_lo == want_lo and got_hi == want_hi
+        rep.ob('R-ARB-INT', okb, g, 'generator range endpoints are the validators\' bound terms (+1 / -1 for exclusive bounds), compared symbolically',
+               {'generator': [show(a)[:120], show(b)[:120]], 'expected': [f'{show(want_lo[0])[:80]} {want_lo[1]:+d}', f'{show(want_hi[0])[:80]} {want_hi[1]:+d}']})
         return
     ga, gb = const_value(a), const_value(b)
     sr = sigma_int_range(d)
